@@ -23,6 +23,7 @@ pub fn def() -> CheckDef {
         assumptions: &["the sim clock is read through the cfg(cfb_verif) hook in Timestamp::now / CompoundFile::touch; with no override the real clock would be read"],
         cpu_limit_s: 30,
         fault_kinds: "F-CK clock jumps / skew (set_clock ops)",
+        count_subruns: false,
     }
 }
 
